@@ -357,6 +357,16 @@ type aCovert struct {
 	// onReply, when set, is called by a session right before it writes its reply (i.e. once the
 	// expected upstream bytes have arrived and while the tunnel is certainly still open)
 	onReply func()
+	// readDelay: every session waits this long before its first read (a covert that is slower
+	// than the station's teardown)
+	readDelay time.Duration
+}
+
+// SetReadDelay makes the next sessions wait before they start reading.
+func (c *aCovert) SetReadDelay(d time.Duration) {
+	c.mu.Lock()
+	c.readDelay = d
+	c.mu.Unlock()
 }
 
 // SetOnReply installs the mid-session hook for the next sessions.
@@ -436,9 +446,14 @@ func aNewCovert(tb testing.TB) *aCovert {
 			}
 			s := &aCovSession{Done: make(chan struct{}), conn: conn}
 			c.sessions = append(c.sessions, s)
-			expect, reply, hook := c.expectUp, c.reply, c.onReply
+			expect, reply, hook, delay := c.expectUp, c.reply, c.onReply, c.readDelay
 			c.mu.Unlock()
-			go s.run(expect, reply, hook)
+			go func() {
+				if delay > 0 {
+					time.Sleep(delay)
+				}
+				s.run(expect, reply, hook)
+			}()
 		}
 	}()
 	return c
